@@ -6,6 +6,7 @@ R7.3 visited discipline: every enqueue of an atom is paired with marking it visi
      pair is guarded by "not yet visited"
 R7.4 the random displacement is perpendicular by construction (cross product with the required vector)
 R7.5 the pull lands on the tabulated length: new separation = (m - k) u with (s m - k)^2 = b^2 as polynomials
+R7.6 the single-atom move keeps no table between calls unless its key holds, by value, everything the entries are computed from
 """
 from __future__ import annotations
 
